@@ -149,6 +149,11 @@ StreamCase(c) ==
 (* ---------------- C04 map part: register map injectivity ---------------- *)
 MapCase(c) == First(<< <<"InjectiveRegisterMap", InjectiveMap(c.addrs)>> >>)
 
+(* ---------------- C18: dispatch only to accelerators that declare the kernel with these operand types ---------------- *)
+DispatchDecl(c) ==
+  LET declared == \E i \in DOMAIN c.declared : c.declared[i] = c.sig IN
+  First(<< <<"DispatchedOnlyIfDeclared", c.dispatched = 1 => declared>> >>)
+
 EqCase(c) == First(<< <<c.clause, c.x = c.y>> >>)
 
 JudgeObj(c) ==
@@ -165,6 +170,7 @@ JudgeObj(c) ==
     [] c.kind = "eq" -> EqCase(c)
     [] c.kind = "stream" -> StreamCase(c)
     [] c.kind = "regmap" -> MapCase(c)
+    [] c.kind = "dispatchdecl" -> DispatchDecl(c)
     [] c.kind = "chosenlayout" -> ChosenLayout(c)
     [] OTHER -> "machinery:unknown-kind"
 
